@@ -27,16 +27,40 @@ theorem sanitize_fstring_roundtrip (d : Str) : evalF (sanitize d []) = some d :=
   exact evalLit_flatMap_enc d _ (Nat.le_refl _)
 
 /-- `DictionaryWriter` keys/values of type string: `create_entry(e, 'string')` is a valid Python `"…"` literal
-whose value is `e` — provided `e` has no raw line feed (a raw newline would end the literal; the generator does
-not escape it, so the guard is the code's, not ours — see `create_entry_newline_breaks`). -/
-theorem create_entry_roundtrip (e : Str) (hn : ∀ c ∈ e, c ≠ 10) : evalDQ (createEntryString e) = some e := by
+whose value is `e` — provided `e` has no raw line feed, no raw carriage return and no NUL. The generator escapes
+none of the three, so the guard is the code's, not ours. Observed on the real `create_entry` + CPython 3.12:
+the entries a‹LF›b and a‹CR›b → `SyntaxError: unterminated string literal` (the tokenizer treats a lone CR as a
+line end, in `eval`/`exec` of a string as well as in an imported file), a‹NUL›b → `SyntaxError: source code string
+cannot contain null bytes`; the YAML loader does deliver all three from double-quoted escapes.
+`evalLit` (the first-version evaluator used here, tied to CPython by no correspondence op) accepts a raw CR and a
+raw NUL, so without `c ≠ 13 ∧ c ≠ 0` this theorem was true of the model and false of CPython — the two conjuncts are
+hypotheses the proof does not use. For CR the CPython-tied evaluator `pValue`/`pStr` is exact: see
+`create_entry_roundtrip_tied` and the witnesses below. NUL is modelled by neither evaluator (no Lean witness). -/
+theorem create_entry_roundtrip (e : Str) (hn : ∀ c ∈ e, c ≠ 10 ∧ c ≠ 13 ∧ c ≠ 0) :
+    evalDQ (createEntryString e) = some e := by
   rw [createEntry_eq]
   simp only [evalDQ, List.cons_append, List.nil_append, List.reverse_append, List.reverse_cons, List.reverse_nil,
     List.reverse_reverse]
-  exact evalLit_flatMap_encDQ e hn _ (by simp)
+  exact evalLit_flatMap_encDQ e (fun c hc => (hn c hc).1) _ (by simp)
+
+/-- The same round trip for the evaluator the correspondence ties to CPython (`rg.evalsq`, the dictionary
+theorems): here `c ≠ 13` is needed by the proof. -/
+theorem create_entry_roundtrip_tied (stop : Nat) (e tl : Str) (hn : ∀ c ∈ e, c ≠ 10 ∧ c ≠ 13 ∧ c ≠ 0) :
+    pValue stop (createEntryString e ++ tl) = some (.str e, tl) :=
+  pValue_string stop e tl (fun c hc => ⟨(hn c hc).1, (hn c hc).2.1⟩)
 
 /-- Non-vacuity / the guard is needed: an entry containing a raw newline does not evaluate. -/
 theorem create_entry_newline_breaks : evalDQ (createEntryString [97, 10, 98]) = none := by decide
+
+/-- The guard `c ≠ 13` is needed: an entry containing a raw carriage return is not a literal for the CPython-tied
+evaluator (as for CPython) … -/
+theorem create_entry_cr_breaks : pValue 41 (createEntryString [97, 13, 98] ++ [41]) = none := by decide
+
+/-- … while the first-version evaluator reads it back (which is why `create_entry_roundtrip` has to *assume*
+`c ≠ 13`). The hypotheses are satisfiable: `a"\b` round-trips through both. -/
+example : evalDQ (createEntryString [97, 13, 98]) = some [97, 13, 98] := by decide
+example : evalDQ (createEntryString [97, 34, 92, 98]) = some [97, 34, 92, 98] ∧
+    pValue 41 (createEntryString [97, 34, 92, 98] ++ [41]) = some (.str [97, 34, 92, 98], [41]) := by decide
 
 example : sanitize [92, 100, 123, 50, 125, 39] [] = [92, 92, 100, 123, 123, 50, 125, 125, 92, 39] := by decide
 example : sanitize [123, 65, 125, 43] [[65]] = [123, 65, 125, 43] := by decide
